@@ -579,6 +579,10 @@ func (c *bCase) fillOracle() {
 	seenF := map[string]bool{}
 	for i := range c.Env.Orders {
 		o := &c.Env.Orders[i]
+		// oracle: does btcec.ParsePubKey accept the order's account key?
+		kb, _ := hex.DecodeString(o.AcctKey)
+		_, perr := btcec.ParsePubKey(kb)
+		o.AcctKeyParses = perr == nil
 		var k string
 		if o.KeyIndex != 0xffff {
 			k = bKeyHex(int(o.KeyIndex))
